@@ -11,6 +11,7 @@ HYPOTHESES = []
 NOT_YET_PROVED = []
 ASSUMPTIONS = []
 nontrivial = nontrivial_default
+EXTRA_MODULES = {"Props.TieSecp": "PyEcc.Tie."}
 P_, N_ = O.SECP_P, O.SECP_N
 
 
@@ -47,6 +48,14 @@ def cases(rng, tier):
         cs.append(Case("secp.add", ti(P) + ti(O.aff_neg(P))))
         for n in scalars(rng):
             cs.append(Case("secp.multiply", ti(P) + [n]))
+    for P in pts[1:4]:
+        for Q in (O.phi(P, P_), O.aff_neg(O.phi(P, P_))):
+            cs.append(Case("secp.add", ti(P) + ti(Q)))
+            cs.append(Case("secp.add", ti(Q) + ti(P)))
+    for d in (P_ - 1, P_, P_ + 1, (1 << 256) - 1, N_, N_ + 1, (1 << 256) - (1 << 32)):
+        cs.append(Case("secp.privtopub", ["x" + d.to_bytes(32, "big").hex()]))
+    for blob in (b"", b"\x01", b"\x00" * 31 + b"\x05", b"\x01" + b"\x00" * 32, bytes([rng.randrange(256) for _ in range(40)])):
+        cs.append(Case("secp.privtopub", ["x" + blob.hex()]))
     for n in scalars(rng) + [rng.randrange(N_) for _ in range(8)]:
         if 0 <= n < (1 << 256):
             cs.append(Case("secp.privtopub", ["x" + n.to_bytes(32, "big").hex()]))
@@ -78,7 +87,7 @@ def law_pred(P, Q, n):
 
 def privtopub_pred(d):
     from py_ecc.secp256k1 import secp256k1 as S
-    ok = _peq(S.privtopub(d.to_bytes(32, "big")), O.aff_mul(G(), d % N_))
+    ok = _peq(S.privtopub(d.to_bytes(max(32, (d.bit_length() + 7) // 8), "big")), O.aff_mul(G(), d % N_))
     consts = (S.P == 2**256 - 2**32 - 977 and S.N == O.SECP_N and (S.Gx, S.Gy) == O.SECP_G and S.A == 0 and S.B == 7)
     return (ok and consts, f"privtopub({d}) != d*G or SEC 2 constants differ (constants ok: {consts})")
 
@@ -130,7 +139,10 @@ def predicates(rng, tier, only=None):
         P = rng.choice([rand_point(rng), O.aff_mul(g, rng.randrange(1, N_)), g, None])
         Q = rng.choice([rand_point(rng), O.aff_mul(g, rng.randrange(1, N_)), None])
         ps.append(Pred("group-law", law_pred, (P, Q, rng.choice(scalars(rng)))))
-    for d in [1, 2, N_ - 2, N_ - 1, rng.randrange(1, N_), rng.randrange(1, 1 << 40)]:
+    for P in (g, rand_point(rng)):
+        ps.append(Pred("group-law", law_pred, (P, O.phi(P, P_), 3)))
+        ps.append(Pred("group-law", law_pred, (P, O.aff_neg(O.phi(P, P_)), 5)))
+    for d in [1, 2, N_ - 2, N_ - 1, rng.randrange(1, N_), rng.randrange(1, 1 << 40), N_, N_ + 1, P_ - 1, P_, P_ + 1, (1 << 256) - 1, (1 << 256) + 7, rng.randrange(1 << 300)]:
         ps.append(Pred("privtopub", privtopub_pred, (d,)))
     for (p, a, b, n_) in (SMALL_CURVES[:2] if tier == "quick" else SMALL_CURVES):
         ps.append(Pred("small-curve-exhaustive", small_curve_pred, (p, a, b, n_)))
